@@ -53,6 +53,8 @@ def main():
     a = sys.argv[1:]
     cid, label, patch, demo_src = a[0], a[1], os.path.abspath(a[2]), os.path.abspath(a[3])
     needs, tier, keep = "", "quick", False
+    if "--suites-only" in a:
+        return suites_only(cid, label, patch)
     i = 4
     while i < len(a):
         if a[i] == "--needs":
@@ -108,6 +110,36 @@ def main():
         shutil.rmtree(base, ignore_errors=True)
         # replays written by this run belong to the patched tree
     return finish(meta, patch, demo_src, keep)
+
+
+def suites_only(cid, label, patch):
+    """Re-run only gorm's own suites with the patch (after a run spoiled by the load-dependent flakes) and update meta.json."""
+    d = os.path.join(ROOT, "seeded", "%s-%s" % (cid, label))
+    meta = json.load(open(os.path.join(d, "meta.json")))
+    base = tempfile.mkdtemp(prefix="seedtry-%s-%s-" % (cid, label), dir="/tmp")
+    wt = os.path.join(base, "repo")
+    tmpd = os.path.join(base, "tmp"); os.makedirs(tmpd)
+    env = dict(ENV, TMPDIR=tmpd)
+    try:
+        rc, out = sh("git -C /repo worktree add -q %s HEAD" % wt)
+        assert rc == 0, out
+        rc, out = sh("git apply %s" % patch, cwd=wt)
+        assert rc == 0, out
+        st = suites(wt, env)
+    finally:
+        sh("git -C /repo worktree remove --force %s" % wt)
+        shutil.rmtree(base, ignore_errors=True)
+    ok = all(v["ok"] for v in st.values())
+    meta["existing_suites_pass_with_change"] = ok
+    meta["ran"].append("%s suites re-run alone: %s" % (time.strftime("%Y-%m-%d %H:%M"), ", ".join("%s=%s (%d run(s))" % (k, "pass" if v["ok"] else "FAIL", v["runs"]) for k, v in st.items())))
+    if ok:
+        meta.pop("suite_tails", None)
+    else:
+        meta["suite_tails"] = {k: v["tail"] for k, v in st.items() if not v["ok"]}
+    meta["qualifies"] = all(meta.get(k) for k in ("patch_applies", "compiles", "demo_passes_without_change", "demo_fails_with_change", "existing_suites_pass_with_change"))
+    json.dump(meta, open(os.path.join(d, "meta.json"), "w"), indent=1)
+    print(cid, label, "suites", "pass" if ok else "FAIL", "qualifies", meta["qualifies"])
+    return 0
 
 
 def finish(meta, patch, demo_src, keep):
